@@ -8,7 +8,7 @@ LEVEL_TEXT = (
     "the write is control- or data-dependent on the read and is not tied to it (tie = the record handed to set "
     "carries header.cas taken from the record that was read, or a single atomic trait operation), has a window in "
     "every schedule that puts a conflicting command between the two calls. R1 enumerates these pairs per command by "
-    "abstract interpretation of every MemcStore method. Today's six pairs are genuine and recorded as known findings; "
+    "abstract interpretation of every MemcStore command (public entry point, helpers inlined). Today's eight pairs (add, replace, append, prepend, incr/decr on hit and on miss) are genuine and recorded as known findings; "
     "any other pair (a new command, or set/get/delete becoming composite) is a violation. Not decided: the "
     "quantitative statements (N*d, distinct return values)."
 )
@@ -40,9 +40,32 @@ def r1(ctx):
     methods = [b for b in f.bodies.values() if b.path.startswith(MEMC + "::") and b.kind == "assoc_fn" and b.name != "new"]
     if len(methods) < 11:
         rep.bad("methods", "only %d MemcStore methods found (11 confirmed by reading)" % len(methods))
+    # commands = the MemcStore methods that no other MemcStore method (or closure of one) calls: a helper shared by several
+    # commands (add_delta, ...) is analysed inlined into each command, so a finding is identified by the command it breaks
+    import callgraph
+
+    cg = callgraph.get(ctx)
+    mpaths = set(b.path for b in methods)
+
+    def owner_method(path):
+        while path not in mpaths and path in f.bodies and f.bodies[path].parent and path != f.bodies[path].parent:
+            path = f.bodies[path].parent
+        return path if path in mpaths else None
+
+    called = set()
+    for src, tgts in cg.edges.items():
+        so = owner_method(src)
+        if so is None:
+            continue
+        for t in tgts:
+            to = owner_method(t)
+            if to is not None and to != so:
+                called.add(to)
+    commands = [b for b in methods if b.path not in called or (b.j.get("vis") or "") == "Public"]
+    rep.check(len(commands) >= 10, "commands", "%d commands (entry points of MemcStore)" % len(commands), "only %d MemcStore entry points found (10 confirmed: set get add replace append prepend increment decrement delete flush)" % len(commands))
     pairs = {}
     clean = set()
-    for b in methods:
+    for b in commands:
         rep.analysed(b)
         argn = [b.local_name(i) or "a%d" % i for i in b.arg_locals()]
         I = Interp(f)
@@ -76,12 +99,12 @@ def r1(ctx):
                     if tied:
                         continue
                     hit = p.state.discr.get(rres)
-                    owner = innermost_common_method(f, b.path, R.ctx, W.ctx)
+                    owner = b.path
                     k = "%s:%s(%s)->%s" % (owner.replace("memcrs::memcache::store::", ""), rn, "hit" if hit == 0 else ("miss" if hit == 1 else "?"), wn)
                     pairs.setdefault(k, (owner, W))
         clean.add(b.path)
     owners = set(o for o, _ in pairs.values())
-    for b in methods:
+    for b in commands:
         if b.path not in owners:
             rep.ok(b.path.replace("memcrs::memcache::store::", "") + ":no-pair", "no dependent read->write pair sequenced by this method", b.loc())
     for k, (owner, W) in sorted(pairs.items()):
